@@ -5,6 +5,7 @@ From Coq Require Import List Arith Bool NArith.
 From Conductor Require Import Model.Loader Model.Planner Model.Exec Model.RunCase
   Proofs.ExecInv Proofs.ExecTheorems Proofs.ExecMain Proofs.PlannerInv Proofs.PlannerOrder Proofs.ComposeExec.
 From Conductor Require Import Gen.Generated Proofs.GenTie.
+From Conductor Require Import Proofs.WfPlanDec.
 Import ListNotations.
 
 (* [infl s] = operations in flight; [procs s] = (operation, COND_SLOT) of the running processes.
@@ -58,6 +59,16 @@ Theorem C04_slot_rule_is_the_sources : forall par jobs, gen_wants_slot par jobs 
 Proof. exact slot_tie. Qed.
 Print Assumptions C04_slot_rule_is_the_sources.
 
+(* ... used by the model where the source uses it: the start event of a launched operation carries
+   the top of the free-slot stack exactly when the translated condition holds of that operation *)
+Theorem C04_slot_rule_drives_the_launch : forall p jobs stop orc s,
+  let o := fst (fst (dequeue s)) in
+  forallb (succeeded s) (exe_deps p o) = true -> launch_fails orc o = false ->
+  trace (launch_one p jobs stop orc s) =
+  EStart o (if gen_wants_slot (is_par p o) jobs then hd_error (avail s) else None) :: trace s.
+Proof. exact slot_tie_launch. Qed.
+Print Assumptions C04_slot_rule_drives_the_launch.
+
 (* non-vacuity: three independent parallelizable operations under jobs = 2 run two at a time
    with slots 0 and 1, the third reuses the slot freed first *)
 Definition ex_plan : plan :=
@@ -70,3 +81,7 @@ Example C04_nonvacuous :
   run_plan ex_plan 2 false ex_orc 20 3 =
   Some [EStart 0 (Some 0); EStart 1 (Some 1); EFinish 1 0; EStart 2 (Some 1); EFinish 0 0; EFinish 2 0; EKill []; EDone].
 Proof. vm_compute. reflexivity. Qed.
+
+(* the example plan meets the hypothesis of the theorems above *)
+Example C04_example_plan_is_wf : wf_plan ex_plan.
+Proof. apply wf_planb_spec. vm_compute. reflexivity. Qed.
